@@ -173,6 +173,26 @@ func genScenario(r *vh.Rand, kind int) scen {
 			{From: "owner", SC: "vesting", Fn: "vestingsc-update-settings", Input: fieldsJSON([][2]string{{"min_duration", "3m"}, {"max_duration", "3000h"}, {"cost.add", "7"},
 				{"max_destinations", "4"}, {"max_description_length", "30"}})}}})
 	}
+	if kind == 4 || r.Chance(1, 3) {
+		// zcnsc mints: a call that fails after writing (bad signatures: the nonce is recorded first), then - in a later
+		// block - a call that reads the same key (a correctly signed mint with that nonce); plus regular mints and repeats
+		s.Authorizers = 3
+		n := int64(r.Range(1, 50))
+		who := accts[r.Intn(len(accts))]
+		bad := stxn{From: who, SC: "zcn", Fn: "mint", Mint: &mintSpec{Nonce: n, Amount: uint64(r.Range(2, 9)) * 1e10, Signers: []int{1, 2, 3}, BadSig: true}}
+		good := bad
+		good.Mint = &mintSpec{Nonce: n, Amount: bad.Mint.Amount, Signers: []int{1, 2, 3}}
+		other := stxn{From: accts[r.Intn(len(accts))], SC: "zcn", Fn: "mint", Mint: &mintSpec{Nonce: n + 1, Amount: 3e10, Signers: []int{1, 2, 3}}}
+		i := r.Intn(len(s.Blocks))
+		s.Blocks[i].Txns = append(s.Blocks[i].Txns, bad)
+		if r.Bool() {
+			s.Blocks[i].Txns = append(s.Blocks[i].Txns, other)
+		}
+		s.Blocks = append(s.Blocks, sblock{Txns: []stxn{good}})
+		if r.Bool() {
+			s.Blocks = append(s.Blocks, sblock{Txns: []stxn{good, other}}) // repeats: "already minted"
+		}
+	}
 	s.Name = fmt.Sprintf("kind%d", kind)
 	return s
 }
@@ -420,7 +440,8 @@ func main() {
 	}
 	o := vh.ParseFlags()
 	rep := vh.NewReport("determinism", "C06", o)
-	rep.Rule = "scenarios of 2-5 blocks of real contract transactions (faucet pour/refill, stake lock/unlock on registered miners, governance updates of the six entry points " +
+	rep.Rule = "scenarios of 2-6 blocks of real contract transactions (faucet pour/refill, stake lock/unlock on registered miners, zcnsc mints signed by registered authorizers incl. " +
+		"a mint that fails after recording its nonce followed in a later block by a valid mint of the same nonce, governance updates of the six entry points " +
 		"with 0, 1 or 3 rejected entries, two spellings of one key, a cost key inside a request) executed through chain.UpdateState with the real contracts; every scenario is " +
 		"executed 6 times (thorough: 16) in fresh processes: GOMAXPROCS 1 and 16, warm and cold state cache; one scenario is executed before and after a wall-clock instant; " +
 		"non-trivial = at least one successful state-changing transaction and one failed one; distinct by scenario"
@@ -565,6 +586,8 @@ func main() {
 			kind = 2
 		case i%8 == 7:
 			kind = 3
+		case i%8 == 2 || i%8 == 6:
+			kind = 4
 		}
 		s := genScenario(rnd, kind)
 		s.Name = fmt.Sprintf("s%d-kind%d", i, kind)
@@ -573,7 +596,9 @@ func main() {
 		mu.Unlock()
 	}
 	wg.Wait()
-	rep.Note("each execution is a fresh process of the engine binary (own map hash seeds); executions differ in GOMAXPROCS (1, 16) and in whether the state cache is kept across blocks")
+	rep.Note("each execution is a fresh process of the engine binary (own map hash seeds); executions differ in GOMAXPROCS (1, 16) and in cache warmth: warm = one statecache.StateCache " +
+		"kept across all blocks (a node that executed the earlier blocks itself), cold = a fresh StateCache for every block (a node that starts from the committed MPT); both through " +
+		"chain.UpdateState with a real block cache committed after each block")
 	rep.Note("events are compared as a multiset for the scenario digest and as a sequence for the event-order signatures")
 	finish()
 }
